@@ -137,6 +137,46 @@ class Drv:
             out.append(t)
         return out
 
+    def op_sub_notif_finds_gone(self, tables, sid, label, outcome):
+        """a notification for the (still registered) subscription arrives after the application let go of its receiver without the close message getting through (outcome
+        'closed'), or while its buffer is full (outcome 'full'): process_subscription_response's verdict, and - exactly when it names the subscription - what the
+        background task then does with it (SubscriptionClosed => build_unsubscribe_message)"""
+        fi_params = R.field_index("Notification", "params")
+        fs, fr = R.field_index("SubscriptionPayload", "subscription"), R.field_index("SubscriptionPayload", "result")
+        out = []
+        for t in tables:
+            key = self.sub_key_for(t.mgr, sid)
+            if key is None:
+                out.append(t)
+                continue
+
+            def mk(ex, key=key):
+                n = Node("subnotif." + label, "Notification")
+                p = Node(f"{n.name}.{fi_params}", "SubscriptionPayload")
+                k = Node(f"{p.name}.{fs}", None)
+                ex.write(k, key)
+                p.kids[fs] = k
+                r = Node(f"{p.name}.{fr}", None)
+                r.val = Opaque(z3.Const(f"payload.{label}", OBJ))
+                p.kids[fr] = r
+                n.kids[fi_params] = p
+                return [n]
+            for t2, p in self.step([t], self.b_subresp, mk, label):
+                sends = [e for e in p.events if e.kind == "call" and "::try_send" in e.callee]
+                if len(sends) != 1:
+                    continue
+                r = sends[0].ret
+                err = self.ex.child(r, ("Err", 0), None)
+                want_ed = 1 if outcome == "closed" else 0           # TrySendError: Full = 0, Closed = 1
+                if self.ex.feasible(t2.pc + [self.ex.discr_of(r) != 1]) or self.ex.feasible(t2.pc + [self.ex.discr_of(err) != want_ed]):
+                    continue
+                retd = z3.simplify(self.ex.discr_of(p.ret))
+                if z3.is_bv_value(retd) and retd.as_long() == 1:
+                    out += self.op_app_unsubscribe([t2], sid, label + ".closed")
+                else:
+                    out.append(t2)          # the verdict names nothing: nobody will close this subscription
+        return out
+
     def active(self, t, sid):
         return self.sub_key_for(t.mgr, sid) is not None
 
@@ -151,6 +191,10 @@ def _lifecycles():
         # accepted, but the caller's future is already gone: the client builds an unsubscribe request at once and the
         # server acknowledges it
         "sub-dropped-then-ack": (["sub", "sub_answer", "unsub_ack"], "dropped"),
+        # accepted and active; the application lets go of the stream while the drop-time close message is lost (full queue) - or falls behind its buffer; the next
+        # notification for it makes the background task close it; the server acknowledges
+        "sub-abandoned-then-notified": (["sub", "sub_answer", "notif_finds_closed", "unsub_ack"], "active"),
+        "sub-lagging-then-notified": (["sub", "sub_answer", "notif_finds_full", "unsub_ack"], "active"),
         # a method-notification handler: unregistered by the application, or its receiver dropped and the next notification finds it closed
         "notif-handler-unregistered": (["notif_register", "notif_unregister"], None),
         "notif-handler-dropped": (["notif_register", "notif_closed"], None),
@@ -209,6 +253,8 @@ def run_cycle(d, tables, name, i):
             tables = d.op_app_unsubscribe(tables, ids["sid"], f"app_unsub{i}")
         elif op == "unsub_ack":
             tables = d.op_answer(tables, ids["uid"], f"unsub_ack{i}")
+        elif op in ("notif_finds_closed", "notif_finds_full"):
+            tables = d.op_sub_notif_finds_gone(tables, ids["sid"], f"{op}{i}", "closed" if op.endswith("closed") else "full")
         elif op == "notif_register":
             tables, ids["_method"] = d.op_notif_register(tables, i)
         elif op == "notif_unregister":
@@ -280,7 +326,7 @@ def obligations(tier, seed):
             r = R.decide(nm + f":no-residue:{what}", "kernel", z3.Or(*[c for c, _ in items]), [z3.Or(*reach)], desc=DESC, bounds=BND, **common)
             if r["status"] == "violated":
                 r["model"] = {"residue": what, "steps": items[0][1]}
-                r["replay"] = {"scenario": "c18_lifecycle", "args": {"cycles": seq}}
+                r["replay"] = {"scenario": "c18_lifecycle", "args": {"cycles": seq, "beyond_known": what != "requests[sub.id]=PendingMethodCall(None)"}}
                 if what.startswith("notification_handlers"):
                     # over a socket the drop itself unregisters the handler; the leftover needs the drop-time message to be lost (full queue)
                     r["replay"] = {"scenario": "c05_drop_full_queue", "args": {"kind": "handler"}}
